@@ -16,7 +16,7 @@ ASSUMPTIONS = ['geod_exact (vmon/oracles/geod.py), re-validated each shard again
                'manual line, an ODE integration of the geodesic equations and mpmath']
 N = {'quick': 1500, 'thorough': 25000}
 SHARDS = {'quick': 16, 'thorough': 32}
-REQUIRED_COUNTERS = ['reverse_azimuth_judged', 'angle_class_args']
+REQUIRED_COUNTERS = ['alias_sequences', 'reverse_azimuth_judged', 'angle_class_args']
 
 
 def plan(tier, seed):
@@ -36,6 +36,15 @@ def run_shard(spec, ctx):
             if i < 2:
                 ctx.sample(case)
             geowork.judge_direct(ns, ctx, case)
+            if rnd.random() < 0.3:
+                # the same line on another ellipsoid / with another argument type (aliasing sequence)
+                c2 = dict(case)
+                if rnd.random() < 0.8:
+                    c2['ell'] = geowork.alias_ell(rnd, case['ell'])
+                else:
+                    c2['argt'] = rnd.choice(['float', 'DMSAngle', 'HPAngle'])
+                geowork.judge_direct(ns, ctx, c2)
+                ctx.count('alias_sequences')
     finally:
         reach.stop()
     ctx.info['lines_reached'] = reach.summary()
